@@ -3,7 +3,7 @@
 # claimed check (quick tier) with VERIF_REPO pointing at the worktree and outputs redirected, record which checks report a violation.
 # usage: tools/seed_matrix.sh [seed ...]   -> /verif/seeded/MATRIX.tsv   (seed <TAB> check <TAB> rc <TAB> first violated obligation(s))
 WT=/var/tmp/seedwt
-OUT=/verif/seeded/MATRIX.tsv
+OUT=${MATRIX_OUT:-/verif/seeded/MATRIX.tsv}
 [ -d $WT ] || { echo "no scratch worktree $WT (run tools/verify_seeds.sh first)"; exit 2; }
 cd /verif
 SEEDS="$@"; [ -z "$SEEDS" ] && SEEDS=$(cd seeded; ls -d C*_*)
